@@ -11,7 +11,7 @@ MODULE = 'Flowdyn.Props.C10'
 THEOREMS = core.theorems_in(['C10.lean'], 'Flowdyn.C10')
 AUDIT_IMPORTS = ['Flowdyn.Props.C07b', 'Flowdyn.Props.KernelsBridge']
 THEOREMS = THEOREMS + ['Flowdyn.C07.loop_preserves', 'Flowdyn.C07.run_preserves', 'Flowdyn.C07.run_preserves_data']
-THEOREMS = THEOREMS + ['Flowdyn.GenK.%s_eq' % k for k in ['eHlle', 'eRoe', 'swHll', 'swRusanov']]
+THEOREMS = THEOREMS + ['Flowdyn.GenK.%s_eq' % k for k in ['eHlle', 'eRoe', 'swHll', 'swRusanov', 'swDt', 'eDt', 'eCons2prim', 'swCons2prim']]
 PARTIAL = {"CFL => wave-speed condition": "that CFL <= 1/2 on the cell speeds |u|+c bounds the face wave speeds of the convex-combination form is NOT proved (the Roe-average speed can exceed both cell speeds); explored by the sweep",
            "HLLC": "positivity of HLLC (Batten's conditions) is not proved; explored by the sweep",
            "one-step lemma": "the convex-combination form of the full first-order update from hlle_is_hll + star_adm is written in DESIGN.md, not yet a theorem on the pipeline model",
